@@ -337,6 +337,10 @@ pub fn run<P: Property>(p: &P, opts: &Opts) -> i32 {
         .map(|d| d.filter_map(|e| e.ok().map(|e| e.path())).collect())
         .unwrap_or_default();
     files.sort();
+    // VERIF_NO_REGRESS=1: skip the regress corpus (used to show that the generated search alone finds a defect)
+    if std::env::var("VERIF_NO_REGRESS").map_or(false, |v| v == "1") {
+        files.clear();
+    }
     for f in files {
         let name = f.file_name().unwrap().to_string_lossy().to_string();
         if !name.starts_with(&format!("{}-", id)) || !name.ends_with(".json") {
